@@ -4,7 +4,7 @@ from ..common import *
 from .. import proofgate, composer, widgets, protocol
 from .. import jubjub as J
 
-THEOREMS = ["C14_rows_give_steps", "C14_step_sound", "C14_fixed_base_sound", "C14_canonical_emits", "C14_canonical_sound", "C14_mulgen_emits", "C14_mulgen_sound"]
+THEOREMS = ["C14_rows_give_steps", "C14_step_sound", "C14_fixed_base_sound", "C14_canonical_emits", "C14_canonical_sound", "C14_mulgen_emits", "C14_mulgen_sound", "C14_mulgen_in_system"]
 FIRST = 6
 
 def e(p, z=1): return " ".join(hx(v) for v in J.ext(p, z))
